@@ -9,7 +9,7 @@ COQ_IMPORTS = "Model.AnnotationOps Check.AnnCommon"
 SHARD = 400
 RULE = ("timelines: all of <=3 (quick) / <=4 (thorough) segments on a 6-point grid plus random ones of up to 12 "
         "segments (nested, chained, abutting, identical bounds, holes); regimes K0/K4/K1; observed: segmentation(), "
-        "get_overlap(); copies translated 2 h, 28 h, 3 d or -8 h 20 min from the origin; non-trivial = at least two segments that intersect")
+        "get_overlap(); annotations: get_overlap with and without a label request (as list, tuple, set, dict view or one-shot iterator; absent labels; a label named twice; labels that print alike such as 1 and '1'); copies translated 2 h, 28 h, 3 d or -8 h 20 min from the origin; non-trivial = at least two segments that intersect")
 
 
 def generate(rng, tier):
